@@ -1,28 +1,33 @@
 #!/usr/bin/env python3
-"""Runs the self-test corpus: ./selftest/run.py [case-id ...] [--tests]   (scratch copies under /tmp, removed afterwards)
---tests additionally runs the repository's test suite on each mutant to confirm it still compiles and passes."""
+"""Runs the self-test corpus: ./selftest/run.py [case-id ...] [--tests] [-j N]   (scratch copies under /tmp, removed afterwards)
+--tests additionally runs the repository's test suite on each mutant to confirm it still compiles and passes.
+A complete clean run records the tree hash in selftest/validated_tree.txt (the thorough tier uses the corpus as positive controls on that tree)."""
 import os, sys, subprocess, shutil, tempfile, json
+from concurrent.futures import ThreadPoolExecutor
 HERE = os.path.dirname(os.path.abspath(__file__))
 sys.path.insert(0, HERE)
-from cases import CASES
+from cases import CASES, apply_case
 VERIF = os.path.dirname(HERE)
-args = [a for a in sys.argv[1:] if not a.startswith('--')]
-run_tests = '--tests' in sys.argv
-fails = 0; results = []
-for c in CASES:
-    if args and c['id'] not in args: continue
+argv = sys.argv[1:]
+jobs = 8
+if '-j' in argv:
+    i = argv.index('-j'); jobs = int(argv[i + 1]); del argv[i:i + 2]
+args = [a for a in argv if not a.startswith('--')]
+run_tests = '--tests' in argv
+
+def run_case(c):
+    lines = []; results = []; fails = 0
     d = tempfile.mkdtemp(prefix='rsbdd-selftest-')
     try:
         repo = os.path.join(d, 'repo')
         subprocess.check_call(['rsync', '-a', '--exclude', 'target', '--exclude', '.git', '/repo/', repo + '/'])
-        from cases import apply_case
         if not apply_case(repo, c):
-            print('%-26s STALE (edit does not apply to %s)' % (c['id'], c['file'])); fails += 1; continue
-        env = dict(os.environ, RSBDD_REPO=repo, RSBDD_EVIDENCE_DIR=os.path.join(d, 'evidence'))
+            return ['%-26s STALE (edit does not apply to %s)' % (c['id'], c['file'])], [], 1
+        env = dict(os.environ, RSBDD_REPO=repo, RSBDD_EVIDENCE_DIR=os.path.join(d, 'evidence'), RSBDD_NO_CONTROLS='1')
         if run_tests:
             r = subprocess.run(['cargo', 'test', '--workspace', '--offline', '--no-fail-fast'], cwd=repo, env=dict(env, CARGO_TARGET_DIR=os.path.join(d, 'target')), stdout=subprocess.PIPE, stderr=subprocess.STDOUT, text=True)
             passed = sum(int(l.split(' passed')[0].split()[-1]) for l in r.stdout.splitlines() if l.startswith('test result:'))
-            print('   [tests: exit %d, %d passed]' % (r.returncode, passed))
+            lines.append('   [%s tests: exit %d, %d passed]' % (c['id'], r.returncode, passed))
         checks = c['expect'] if c['kind'] == 'fire' else {k: None for k in c['checks']}
         for pid, needle in checks.items():
             r = subprocess.run([os.path.join(VERIF, 'check'), pid], env=env, stdout=subprocess.PIPE, stderr=subprocess.STDOUT, text=True)
@@ -35,14 +40,22 @@ for c in CASES:
                 status = 'silent' if ok else 'FALSE-ALARM'
             if not ok:
                 fails += 1
-                print('\n'.join('      | ' + l[:240] for l in out.splitlines() if 'violation' in l.lower())[:1500])
-            print('%-26s %-6s %s %s' % (c['id'], c['kind'], pid, status))
+                lines.append('\n'.join('      | ' + l[:240] for l in out.splitlines() if 'violation' in l.lower())[:1500])
+            lines.append('%-26s %-6s %s %s' % (c['id'], c['kind'], pid, status))
             results.append({'case': c['id'], 'kind': c['kind'], 'property': pid, 'status': status})
     finally:
         shutil.rmtree(d, ignore_errors=True)
+    return lines, results, fails
+
+todo = [c for c in CASES if not args or c['id'] in args]
+fails = 0; results = []
+with ThreadPoolExecutor(max_workers=jobs) as ex:
+    for lines, res, f in ex.map(run_case, todo):
+        for l in lines: print(l)
+        sys.stdout.flush()
+        results += res; fails += f
 json.dump(results, open(os.path.join(HERE, 'last_run.json'), 'w'), indent=1)
 if not args and not fails:
-    # a complete, clean run validates the corpus for this tree: the thorough tier uses the cases as positive controls on this tree only
     sys.path.insert(0, os.path.join(VERIF, 'rules'))
     import framework
     open(os.path.join(HERE, 'validated_tree.txt'), 'w').write(framework.tree_hash('/repo') + '\n')
